@@ -220,3 +220,5 @@ func sampleSteps(steps []seqrun.Step, n int) []string {
 var Extra = map[string]func(args []string) int{}
 
 var ctxBg = context.Background()
+
+var stderrW = os.Stderr
